@@ -80,6 +80,9 @@ struct FileTransfer {
     auto_saved_to: Option<String>,
 }
 
+/// max. initial capacity reserved for the file data of a transfer. The buffer grows if more is needed.
+const MAX_INITIAL_FILE_DATA_CAPACITY: u64 = 1024 * 1024;
+
 /// internal data for completed files. This contains the file data for completed transfers and is
 /// stored inside the .internal_data member of the plugin state.
 struct FileTransferStateData {
@@ -325,7 +328,12 @@ impl Plugin for FileTransferPlugin {
                                 recvd_packages: 0,
                                 recvd_payload: 0,
                                 file_data: Vec::with_capacity(if keep_data {
-                                    (nr_packages * buffer_size) as usize
+                                    // nr_packages and buffer_size are from the (potentially corrupt) msg. So we limit
+                                    // the initial capacity. (it needs to be >0 as we use it to indicate whether to store data)
+                                    std::cmp::min(
+                                        nr_packages.saturating_mul(buffer_size),
+                                        MAX_INITIAL_FILE_DATA_CAPACITY,
+                                    ) as usize
                                 } else {
                                     0
                                 }),
